@@ -267,6 +267,34 @@ theorem joinNested_counts (done : List (Option Mol)) : ∀ (ns : List RawNode) (
                   List.length_cons, List.sum_cons] at ih ⊢
                 omega
 
+/-! ### sums over a list with one position erased (charge / radical bookkeeping of `join`) -/
+
+theorem sum_map_eraseIdx_int {α} (f : α → Int) (l : List α) (p : Nat) (hp : p < l.length) :
+    ((l.eraseIdx p).map f).sum + f l[p] = (l.map f).sum := by
+  induction l generalizing p with
+  | nil => simp at hp
+  | cons a t ih =>
+    cases p with
+    | zero => simp [Int.add_comm]
+    | succ p =>
+      simp only [List.length_cons, Nat.add_lt_add_iff_right] at hp
+      simp only [List.eraseIdx_cons_succ, List.map_cons, List.sum_cons, List.getElem_cons_succ]
+      have := ih p hp
+      omega
+
+theorem sum_map_eraseIdx_nat {α} (f : α → Nat) (l : List α) (p : Nat) (hp : p < l.length) :
+    ((l.eraseIdx p).map f).sum + f l[p] = (l.map f).sum := by
+  induction l generalizing p with
+  | nil => simp at hp
+  | cons a t ih =>
+    cases p with
+    | zero => simp [Nat.add_comm]
+    | succ p =>
+      simp only [List.length_cons, Nat.add_lt_add_iff_right] at hp
+      simp only [List.eraseIdx_cons_succ, List.map_cons, List.sum_cons, List.getElem_cons_succ]
+      have := ih p hp
+      omega
+
 /-! ### the flat fragment -/
 
 /-- the drawn formal charge / radical / isotope of a node (raw attributes read as the drawing means them) -/
